@@ -5,7 +5,9 @@ import (
 	"fmt"
 	"math/rand"
 	"net/url"
+	"strconv"
 	"strings"
+	"verif/harness/gendoc"
 )
 
 // corruptValue returns malformed wire texts for the cell's parameter (single-string form or
@@ -164,6 +166,34 @@ func runC06(r *Report, rng *rand.Rand, thorough bool) {
 		r.Violate("lab_run_failed", err.Error(), nil)
 		return
 	}
+	fcases := NewCases("cases_C06_form", "From V Require Import Model.Wrapper Corr.Eval.", "list (string * bool) * list (string * presence) * list (string * presence) * bool", "mismatches_form")
+	defer fcases.WriteTo(r)
+	// what the text under each name is, for the parameter of that name: binds or malformed
+	formState := func(enc string) string {
+		vals, _ := url.ParseQuery(enc)
+		var out []string
+		for _, k := range []string{"token", "filter", "n", "opt", "note"} {
+			v, ok := vals[k]
+			if !ok {
+				continue
+			}
+			st := "Binds"
+			switch k {
+			case "filter":
+				var x map[string]any
+				if json.Unmarshal([]byte(v[0]), &x) != nil {
+					st = "Malformed"
+				}
+			case "n", "opt":
+				if _, err := strconv.Atoi(v[0]); err != nil {
+					st = "Malformed"
+				}
+			}
+			out = append(out, fmt.Sprintf("(%s, %s)", gendoc.CoqStr(k), st))
+		}
+		return "[" + strings.Join(out, "; ") + "]"
+	}
+	const formDecl = `[("token"%string, true); ("filter"%string, true); ("n"%string, true); ("opt"%string, false); ("note"%string, false)]`
 	for _, sc := range scenarios {
 		id := sc["id"].(string)
 		fc, ok := formIDs[id]
@@ -189,6 +219,7 @@ func runC06(r *Report, rng *rand.Rand, thorough bool) {
 				hs = append(hs, e)
 			}
 		}
+		fcases.Add(fmt.Sprintf("(%s, %s, %s, %v)", formDecl, formState(fc.query), formState(fc.body), len(hs) > 0), replay)
 		if !fc.wantOK {
 			if len(hs) != 0 || res.Status != 400 {
 				r.Violate("form_body_field_taken_for_query_parameter/"+fw, fmt.Sprintf("%s POST /search?%s with form body %q (%s): handler calls %d, status %d, want no call and 400", fw, fc.query, fc.body, fc.name, len(hs), res.Status), replay)
